@@ -1,8 +1,10 @@
 #!/bin/bash
 # tools/seedrun.sh <seeded-dir-name> <Cxx> [Cyy…]: apply seeded/<name>/patch.diff to /repo, run the checks, revert.
+# Evidence and replays of these runs go to build/evidence-seed (the registered evidence/ describes the unchanged tree).
 d=/verif/seeded/$1; shift
+export VERIF_EVIDENCE_DIR=/verif/build/evidence-seed
 git -C /repo apply $d/patch.diff || exit 2
 for p in "$@"; do
-  (cd /verif && ./check $p 2>&1 | grep -v KNOWN-FINDING | tail -2; head -5 evidence/replay/$p-0.case 2>/dev/null | cut -c1-300)
+  (cd /verif && ./check $p 2>&1 | grep -v KNOWN-FINDING | tail -2; head -5 $VERIF_EVIDENCE_DIR/replay/$p-0.case 2>/dev/null | cut -c1-300)
 done
 git -C /repo checkout -- .
